@@ -123,7 +123,7 @@ def setup():
 
 def run_cases(ctx, n, seed):
     gobin = L.go_build("c15")
-    rc, out, err, dt = L.sh([gobin, "-seed", str(seed), "-n", str(n)], timeout=6000)
+    rc, out, err, dt = L.sh([gobin, "-seed", str(seed), "-n", str(n)], timeout=ctx.scale(600, 3000))
     if rc != 0:
         raise L.Fail("correspondence", "harness cmd/c15 crashed (panic in consumergroup.go or in the driver)", (out[-1500:] + err[-2500:]))
     return out, err
@@ -160,9 +160,13 @@ def correspondence(ctx):
     texts.append(out)
     dumps = hang_dumps(err)
     cases = []
+    notrun = {}
     for t in texts:
         for c in L.parse_cases(t):
             split_seed(c)
+            if c["go"] == "NOT-RUN":
+                notrun[c["op"]] = notrun.get(c["op"], 0) + 1
+                continue
             c["id"] = str(len(cases) + 1)
             c["line"] = c["id"] + " " + c["op"] + " " + c["args"]
             cases.append(c)
@@ -202,6 +206,10 @@ def correspondence(ctx):
                  + (" (after a RebalanceInProgress result: regression of F5)" if "offer-abort-rb" in w["feats"] else ""),
             detail=json.dumps(dict(occurrences=len(noleave), witness=w["line"][:800], go=w["go"][:300], feats=w["feats"])),
             input=dict(case=w["line"], go=w["go"], feats=w["feats"])))
+    if notrun:
+        failures.append(dict(layer="property", what="watchdog breaker tripped (a scenario blocked twice in a row, or three scenarios hit the watchdog): "
+                             + ", ".join(f"{n} {op} scenarios not run" for op, n in sorted(notrun.items())) + "; see the HANG failures",
+                             detail=json.dumps(notrun), input=None))
     # a scenario that hit the watchdog was re-run alone by the harness with the same seed: hanging
     # twice is a HANG result (handled above as a violation); hanging once only is a note
     notes = []
